@@ -109,6 +109,7 @@ def random_program(rng, spec, nsteps, weights=None, nkeys=3, nvals=4, allow_clas
     deleted_uncommitted = set()
     sp_open = [0]
     sp_exists = [{}]
+    sp_flushed = [False]
     deleted_unflushed = set()   # root keys deleted since the last flush: re-adding them now would be a
                                 # "row switch" (delete + insert of one key in one flush), which is the open
                                 # finding F-ROWSWITCH; the random stream avoids it (a pinned corpus case keeps it)
@@ -198,6 +199,7 @@ def random_program(rng, spec, nsteps, weights=None, nkeys=3, nvals=4, allow_clas
             if sp_open[0] == 0:
                 prog.append(['sp_begin'])
                 sp_open[0] = 1
+                sp_flushed[0] = False
                 sp_exists[0] = dict(exists)
         elif kind == 'sp_commit':
             if sp_open[0] == 1:
@@ -205,7 +207,9 @@ def random_program(rng, spec, nsteps, weights=None, nkeys=3, nvals=4, allow_clas
                 sp_open[0] = 0
         elif kind == 'sp_rollback':
             if sp_open[0] == 1:
-                prog.append(['sp_rollback'])
+                # a savepoint inside which something was flushed is released, not rolled back: rolling it back
+                # is the open finding F-SP (pinned cases only)
+                prog.append(['sp_rollback'] if not sp_flushed[0] else ['sp_commit'])
                 sp_open[0] = 0
                 # entities created inside the savepoint are gone; the generator's shadow keeps it simple and
                 # forgets every entity touched since (it may skip some later steps, which is harmless)
@@ -220,6 +224,8 @@ def random_program(rng, spec, nsteps, weights=None, nkeys=3, nvals=4, allow_clas
                 prog.append(['sp_commit'])
                 sp_open[0] = 0
             prog.append([kind])
+            if kind in ('flush', 'query'):
+                sp_flushed[0] = True
             if kind in ('flush', 'commit', 'rollback'):
                 deleted_unflushed.clear()
             if kind in ('commit', 'rollback'):
